@@ -17,6 +17,7 @@ if sys.argv[1] == "import":
             if os.path.exists(d+f): shutil.copy(d+f, dst+"/"+f)
         print("imported", dst)
     sys.exit(0)
+GOVC = os.environ.get("GOVC", "/verif/bin/govc")
 only = sys.argv[2:]
 base = os.path.expanduser("~/.govc-scratch"); os.makedirs(base, exist_ok=True)
 wt = tempfile.mkdtemp(prefix="seed", dir=base); os.rmdir(wt)
@@ -45,7 +46,7 @@ try:
         bad1, out1 = demo_run()
         res["demo_confirmed"] = (not bad0) and bad1
         res["demo_clean_tail"] = out0.strip()[-200:]; res["demo_patched_tail"] = out1.strip()[-300:]
-        c = run(f"/verif/bin/govc check -prop {prop} -repo {wt} -noevidence -tier quick")
+        c = run(f"{GOVC} check -prop {prop} -repo {wt} -noevidence -tier quick")
         failed = re.findall(r"FAILED (?:obligation )?(\S+)", c.stdout)
         res["check_exit"] = c.returncode; res["failed_obligations"] = failed[:12]
         nounits = "units=0 " in c.stdout
@@ -55,7 +56,7 @@ try:
         if nounits: res["check_note"] = "property has no check (not claimed): nothing can catch this change"
         if "no such property" in c.stdout+c.stderr or (c.returncode not in (0,1)): res["check_note"] = (c.stdout+c.stderr)[-300:]
         if not res["caught"] and not nounits:
-            t = run(f"/verif/bin/govc check -prop {prop} -repo {wt} -noevidence -tier thorough")
+            t = run(f"{GOVC} check -prop {prop} -repo {wt} -noevidence -tier thorough")
             bf = re.findall(r"FAILED bounded stand-in (\S+): (.*)", t.stdout)
             res["thorough_caught"] = t.returncode == 1 and len(bf) > 0
             if bf: res["thorough_by"] = bf[0][0]; res["thorough_failing_input"] = bf[0][1][:300]
